@@ -65,6 +65,12 @@ theorem exec_spec (p : Prog) (x : Nat) (bc : Bcast) (hwf : bc.WF) :
       · intro k ch hk
         simpa [laterBcast] using i4 k ch hk
       · rw [i6]; cases lastSet r <;> rfl
+    | panic =>
+      obtain ⟨i1, i2, i3, i4, i5, i6⟩ := ih x bc hwf
+      simp only [exec, Prog.hasBcast, numGets, lastSet]
+      refine ⟨i1, i2, i3, ?_, i5, i6⟩
+      intro k ch hk
+      simpa [laterBcast] using i4 k ch hk
 
 theorem getWaitCh_cur (bc : Bcast) : bc.getWaitCh.1.cur = some bc.getWaitCh.2 := by
   unfold Bcast.getWaitCh; cases h : bc.cur <;> simp [h]
@@ -100,6 +106,10 @@ theorem exec_nobcast (p : Prog) (x : Nat) (bc : Bcast) (hnb : p.hasBcast = false
       simp only [exec]
       simp only [Prog.hasBcast] at hnb
       exact ih v bc hnb
+    | panic =>
+      simp only [exec]
+      simp only [Prog.hasBcast] at hnb
+      exact ih x bc hnb
 
 /-- a handle obtained after the last `broadcast()` of the body is the current channel afterwards -/
 theorem exec_last_handles (p : Prog) (x : Nat) (bc : Bcast) (k ch : Nat)
@@ -128,6 +138,10 @@ theorem exec_last_handles (p : Prog) (x : Nat) (bc : Bcast) (k ch : Nat)
       simp only [exec] at hk ⊢
       simp only [laterBcast] at hl
       exact ih v bc k hk hl
+    | panic =>
+      simp only [exec] at hk ⊢
+      simp only [laterBcast] at hl
+      exact ih x bc k hk hl
 
 /-! ## the invariant -/
 
@@ -628,6 +642,7 @@ theorem exec_x (p : Prog) (x : Nat) (bc : Bcast) : (exec p x bc).1 = (lastSet p)
     | set v =>
       simp only [exec, lastSet]; rw [ih v bc]
       cases lastSet r <;> rfl
+    | panic => simp only [exec, lastSet]; exact ih x _
 
 /-- the discipline of the last clause of C03: a body that assigns `x` also broadcasts -/
 def Prog.disciplined (p : Prog) : Bool := (lastSet p).isNone || p.hasBcast
